@@ -439,3 +439,19 @@ Proof.
   intros e top a ks id Hr Hm Hl Ht. rewrite ev_E, runb_cons.
   rewrite (c18_nofilter_switch_step e init top a id Hr Hm Hl Ht). reflexivity.
 Qed.
+
+(* ------------------------------------------------------------------ C18_filter_no_switch (round 4) *)
+(* The decision "this request has a filter" is the table entry alone: a filter of ANY shape (in particular a single
+   leaf, [FN n []], which as an lxml element is falsy) never yields the switch signal, in any handler state. *)
+Lemma c18_filter_no_switch : forall e s top a id f o,
+  is_reply top = true -> dict_get s_msgid a = Some id -> has_listener e = true ->
+  dict_get id (table e) = Some (Some f) ->
+  step e s (Start top a) <> Raise ESwitch o.
+Proof.
+  intros e s top a id f o Hr Hm Hl Ht. cbn [step]. unfold start.
+  rewrite Hr, Hm, Hl, Ht. cbn [negb cur ign validate roottag].
+  repeat match goal with
+         | |- context [match ?x with _ => _ end] => destruct x
+         | |- context [if ?x then _ else _] => destruct x
+         end; discriminate.
+Qed.
